@@ -63,6 +63,10 @@ CLAIMED = {
    text="Partial. Proved: the object a catch clause receives (thrownOf: the wrapped value of a LispError, else the error itself) is unchanged by throw (errors as they are, other values wrapped), by lisperror.NewLispError's re-positioning (never re-wraps), is what ErrorValue returns, and is preserved by EVAL when it re-positions a builtin's error; errors propagate unchanged through eval_ast, do, macroexpand, Apply and every special form covered by C01; the empty try form. A genuine defect (handler value evaluated a second time in the handler's scope, finally run in the handler's scope) was found while specifying the form and fixed. NOT proved: the try form itself (body/handler/finally sequencing): its relation (tryStepFull, with cut lemma tryShape) is written in the contract file but needs 10-60 s per case in z3/cvc5, too close to the time-outs to be claimed.",
    note="errors.Is reachability of wrapped Go errors (fmt.Errorf %w in lib/call, NewGoError) is not modelled; the string handed to catch for errors without ErrorValue is abstract (errorString).",
    tech="contract-based deductive verification: functional post-conditions of throw / NewLispError / ErrorValue against thrownOf, thrown-object clause in EVAL's step relation (builtin error case); z3/cvc5"),
+ "C16": dict(level="proof", ref="DESIGN.md §4 C16",
+   text="For every token array (any length, any nesting) the reader functions read_form, read_list, read_vector, read_hash_map, read_set, read_external, read_atom, read_placeholder are proved to return the error class a token-level grammar prescribes: the distinguished 'expected <closer>, got EOF' error exactly when the tokens run out while a bracket is open, naming the closer of that innermost bracket (the error of a nested form is passed on unchanged by every enclosing list, vector, map, set and reader macro), a different class for stray closers, malformed atoms, odd maps and bad set members, and success with the position just after the form otherwise; repl.multiLine is proved true exactly for the five distinguished messages on LispError values.",
+   note="Token level: text -> tokens is the third-party scanner (A-SCAN: brackets inside strings, raw strings and comments are not tokens). The grammar (rfStep/rlC in reader/zz_contracts_verif.go) is the reading of the statement; the statement's own characterisation (completable by appending closers <=> EOF class) is not proved as a lemma over all token sequences. Read_str/READ passing read_form's error through and reporting left-over tokens with another message is visible in the code, not a separate obligation. Go-constructor forms are classified only while their bracket is open. errors.New(s).Error() == s is a stub fact.",
+   tech="contract-based deductive verification: abstract fixpoint (rfC/rfP) with checked one-step definition for the mutual recursion, recursive spec functions with a loop invariant for read_list, message-level error model; z3/cvc5"),
 }
 
 NA_REASON_WIP = ("check under construction (the contract-based VC engine exists; this property's contracts are not wired yet): "
